@@ -28,6 +28,8 @@ structure Act where
   createdAt : Int
   execLamports : Nat
   soft : Bool
+  /-- the funds receiver named at creation (may differ from the owner of the slot) -/
+  receiver : Nat
   deriving Repr
 
 structure St where
@@ -67,7 +69,7 @@ def escrowOf (usr : User) (k a b : Nat) : Option (Nat × Nat × Nat) :=
   else if k = 2 then (if a = 0 ∨ usr.long < a then none else some (a, 0, 0))
   else (if a = 0 ∨ usr.short < a then none else some (0, a, 0))
 
-def create (s : St) (u k i a b : Nat) (soft : Bool) (execLamports : Nat) : Option St :=
+def create (s : St) (u k i a b : Nat) (soft : Bool) (execLamports : Nat) (receiver : Nat) : Option St :=
   match s.acts u k i with
   | some _ => none
   | none =>
@@ -77,7 +79,7 @@ def create (s : St) (u k i a b : Nat) (soft : Bool) (execLamports : Nat) : Optio
     | some (l, sh, m) =>
       if execLamports < minExecLamports k then none else
       some (setAct (setUser s u ⟨usr.long - l, usr.short - sh, usr.mt - m⟩) u k i
-        (some ⟨0, l, sh, m, s.now, execLamports, soft⟩))
+        (some ⟨0, l, sh, m, s.now, execLamports, soft, receiver⟩))
 
 inductive Outcome where
   | completed | cancelled
@@ -122,19 +124,36 @@ def exec (s : St) (who : Who) (u k i fee : Nat) (throw : Bool) (fail : Bool) (x 
     else if act.soft || fail then soft
     else (complete s u k i act x y).map (fun s' => (s', .completed, paid))
 
+/-- the INPUT side of an action's escrow (what the owner put in and gets refunded): deposit collateral,
+withdrawal market tokens, swap input token. -/
+def inSide (k : Nat) (a : Act) : Nat × Nat × Nat :=
+  if k = 0 then (a.escLong, a.escShort, 0) else if k = 1 then (0, 0, a.escMt)
+  else if k = 2 then (a.escLong, 0, 0) else (0, a.escShort, 0)
+
+/-- the OUTPUT side (the proceeds of a successful execution): minted market tokens, withdrawn collateral,
+swap output token. -/
+def outSide (k : Nat) (a : Act) : Nat × Nat × Nat :=
+  if k = 0 then (0, 0, a.escMt) else if k = 1 then (a.escLong, a.escShort, 0)
+  else if k = 2 then (0, a.escShort, 0) else (a.escLong, 0, 0)
+
+def credit (s : St) (v : Nat) (t : Nat × Nat × Nat) : St :=
+  setUser s v ⟨(s.users v).long + t.1, (s.users v).short + t.2.1, (s.users v).mt + t.2.2⟩
+
+/-- `close_deposit` / `close_withdrawal` / `close_order_v2`: only the OWNER (any state) or a keeper (completed /
+cancelled) may close — the receiver has no say; the input side of the escrow is refunded to the owner, the
+output side is paid to the receiver. -/
 def close (s : St) (who : Who) (u k i : Nat) : Option St :=
   match s.acts u k i with
   | none => none
   | some act =>
     let allowed := who = .user u ∨ (who = .keeper ∧ act.state ≠ 0)
     if ¬ allowed then none else
-    let usr := s.users u
-    some (setAct (setUser s u ⟨usr.long + act.escLong, usr.short + act.escShort, usr.mt + act.escMt⟩) u k i none)
+    some (setAct (credit (credit s u (inSide k act)) act.receiver (outSide k act)) u k i none)
 
 inductive Op where
   | tick (dt : Nat)
   | price (age : Nat)
-  | create (u k i a b : Nat) (soft : Bool) (execLamports : Nat)
+  | create (u k i a b : Nat) (soft : Bool) (execLamports : Nat) (receiver : Nat)
   | exec (who : Who) (u k i fee : Nat) (throw : Bool) (fail : Bool) (x y : Nat)
   | close (who : Who) (u k i : Nat)
 
@@ -149,7 +168,7 @@ inductive Event where
 def step (s : St) : Op → St × Event
   | .tick dt => (tick s dt, .none)
   | .price age => (price s age, .none)
-  | .create u k i a b soft el => match create s u k i a b soft el with | some s' => (s', .created u k i) | none => (s, .none)
+  | .create u k i a b soft el rc => match create s u k i a b soft el rc with | some s' => (s', .created u k i) | none => (s, .none)
   | .exec who u k i fee throw fail x y => match exec s who u k i fee throw fail x y with | some (s', o, _) => (s', .executed u k i o) | none => (s, .none)
   | .close who u k i => match close s who u k i with | some s' => (s', .closed u k i) | none => (s, .none)
 
